@@ -235,4 +235,189 @@ func checkC16NullDeletion(res *Result, p *Pub) {
 		res.check(okNil, rule, fname(fn), p.pos(ci), "a member is deleted only where the raw object gives it as null", "the delete is not guarded by <ranged value> == nil")
 	}
 	res.Count("C16-R8 null-deletion sites", nDel, 1)
+	checkRawMapChain(res, p, rule)
+}
+
+// onlyUnmarshalWrites: v is a load of a local variable whose only writer is
+// json.Unmarshal (its address is passed there, and nothing else stores to it).
+func onlyUnmarshalWrites(v ssa.Value) (bool, string) {
+	ld, ok := unwrap(v).(*ssa.UnOp)
+	if !ok || ld.Op != token.MUL {
+		return false, "the raw map handed on is " + valueLabel(v) + ", not the variable json.Unmarshal filled"
+	}
+	al, ok := ld.X.(*ssa.Alloc)
+	if !ok {
+		return false, "the raw map handed on is " + valueLabel(v) + ", not a local variable"
+	}
+	unm := false
+	for _, r := range *al.Referrers() {
+		switch x := r.(type) {
+		case *ssa.Store:
+			if x.Addr == al {
+				if isNilConst(x.Val) {
+					continue
+				}
+				return false, "the variable holding the decoded request body is overwritten with " + valueLabel(x.Val) + ": explicit JSON nulls of the request are lost before the Update callback sees them"
+			}
+		case *ssa.MakeInterface:
+			for _, rr := range *x.Referrers() {
+				if c, ok := rr.(*ssa.Call); ok {
+					if f := c.Common().StaticCallee(); f != nil && f.Pkg != nil && f.Pkg.Pkg.Path() == "encoding/json" && f.Name() == "Unmarshal" {
+						unm = true
+					}
+				}
+			}
+		}
+	}
+	if !unm {
+		return false, "the variable is not filled by json.Unmarshal"
+	}
+	return true, ""
+}
+
+// checkRawMapChain: SocialWrappedCallbacks.rawActivity is the map the request
+// body was decoded into, handed on unchanged: field <- PostOutbox's parameter
+// <- the argument of every delegate.PostOutbox call in pub <- (parameters of
+// callers) <- a variable only json.Unmarshal writes.
+func checkRawMapChain(res *Result, p *Pub, rule string) {
+	E := computeEffects(p)
+	fn := p.MustFunc(res, rule, "sideEffectActor.PostOutbox")
+	if fn == nil {
+		return
+	}
+	var prm *ssa.Parameter
+	for _, b := range fn.Blocks {
+		for _, ins := range b.Instrs {
+			if st, ok := ins.(*ssa.Store); ok {
+				if fa, ok := st.Addr.(*ssa.FieldAddr); ok && fieldName(fa.X.Type(), fa.Field) == "rawActivity" {
+					pr, isP := unwrap(st.Val).(*ssa.Parameter)
+					res.check(isP, rule, fname(fn), p.pos(st), "rawActivity is the raw map PostOutbox was given", "stored value is "+valueLabel(st.Val))
+					if isP {
+						prm = pr
+					}
+				}
+			}
+		}
+	}
+	if prm == nil {
+		res.bad(rule, fname(fn), p.pos(fn), "PostOutbox hands its raw map to the callbacks", "no store of a parameter into rawActivity")
+		return
+	}
+	idx := -1
+	for i, q := range fn.Params {
+		if q == prm {
+			idx = i
+		}
+	}
+	type work struct {
+		f   *ssa.Function
+		idx int // parameter index in f.Params
+	}
+	todo := []work{{fn, idx}}
+	seen := map[*ssa.Function]bool{fn: true}
+	origins := 0
+	for depth := 0; len(todo) > 0 && depth < 5; depth++ {
+		var next []work
+		for _, wk := range todo {
+			for _, g := range p.Funcs {
+				for _, ci := range E.byFn[g] {
+					hit := false
+					for _, c := range ci.Callees {
+						if c == wk.f {
+							hit = true
+						}
+					}
+					if !hit {
+						continue
+					}
+					cc := ci.Instr.Common()
+					ai := wk.idx
+					if cc.IsInvoke() {
+						ai-- // Args exclude the receiver
+					}
+					if ai < 0 || ai >= len(cc.Args) {
+						res.undecided(rule, fname(g), p.pos(ci.Instr), "raw map argument of "+ci.Label, "argument index out of range")
+						continue
+					}
+					a := collapsePhi(cc.Args[ai], 0)
+					// `if m == nil { m = Serialize() }` (no raw request, Send path): a merge
+					// whose other incoming values arrive only where the parameter is nil
+					if ph, ok := unwrap(a).(*ssa.Phi); ok {
+						ffg := computeFacts(g)
+						var only *ssa.Parameter
+						good := len(ffg.edgeIn[ph.Block()]) == len(ph.Edges)
+						for _, e := range ph.Edges {
+							if pa, ok := unwrap(e).(*ssa.Parameter); ok {
+								if only != nil && only != pa {
+									good = false
+								}
+								only = pa
+							}
+						}
+						if good && only != nil {
+							for i, e := range ph.Edges {
+								if unwrap(e) == ssa.Value(only) {
+									continue
+								}
+								es := ffg.edgeIn[ph.Block()][i]
+								if es != nil && !es.facts[fact{ffg.canon(es, only), fNIL, ""}] {
+									good = false
+								}
+							}
+						}
+						if good && only != nil {
+							a = only
+						}
+					}
+					if pa, ok := unwrap(a).(*ssa.Parameter); ok {
+						res.ok(rule, fname(g), p.pos(ci.Instr), "the raw map is handed on unchanged to "+fname(wk.f))
+						if !seen[g] {
+							seen[g] = true
+							for i, q := range g.Params {
+								if q == pa {
+									next = append(next, work{g, i})
+								}
+							}
+						}
+						continue
+					}
+					if isNilConst(a) {
+						res.ok(rule, fname(g), p.pos(ci.Instr), "no request body (programmatic Send): nil raw map")
+						continue
+					}
+					ok, why := onlyUnmarshalWrites(a)
+					origins++
+					res.check(ok, rule, fname(g), p.pos(ci.Instr), "the raw map handed to "+fname(wk.f)+" is the decoded request body itself", why)
+				}
+			}
+		}
+		todo = next
+	}
+	res.Count("C16-R8 origins of the raw activity map", origins, 1)
+}
+
+
+// collapsePhi: a merge all of whose incoming values are one and the same value
+// (ignoring itself) denotes that value.
+func collapsePhi(v ssa.Value, depth int) ssa.Value {
+	ph, ok := unwrap(v).(*ssa.Phi)
+	if !ok || depth > 4 {
+		return v
+	}
+	var one ssa.Value
+	for _, e := range ph.Edges {
+		e = collapsePhi(e, depth+1)
+		if unwrap(e) == ssa.Value(ph) {
+			continue
+		}
+		if one == nil {
+			one = e
+		} else if unwrap(one) != unwrap(e) {
+			return v
+		}
+	}
+	if one == nil {
+		return v
+	}
+	return one
 }
